@@ -173,6 +173,8 @@ def extra_instances():
     # an object with fourteen descriptors (two-digit positions in a transition list, descriptor numbers >= 10)
     add(M("C[>]", S("[>]", ["[<]CC[>]", "[<]CO[>]", "[<]CS[>]", "[<]CN[>]", "[<]C(C)C[>]", "[<]CC(F)[>|1 0 0 0 0 0 0 0 2 0 3 0 0 0|]"], ["[<][H]", "[<]F"], "[<]", g(90)), "[<]O",
           name="fourteen-descriptors"))
+    # a suffix written behind more than 26 tokens (residue numbers run past the alphabet)
+    add(M("C[>]", S("[>]", ["[<]CC[>]"], ["[<]" + "C" * k + "F" for k in range(1, 27)], "[<]", g(60)), "[<]O", name="suffix-behind-27-tokens"))
     # ... a molecule that STARTS with an object, then a connector written without descriptors, then another object
     add(Mol([S("[]", ["[<]CC[>]"], ["[>][H]"], "[<]", g(40)), Token([_imp("<"), "CO", _imp(">", w=0)]),
              S("[>]", ["[<]CS[>]"], [], "[<]", g(50)), Token([_imp("<"), "F"])], name="object-first-implicit-connector"))
